@@ -202,3 +202,40 @@ func SmallMulOverflowZ(x1, x2 *big.Int) []Val {
 	}
 	return out
 }
+
+// HalfWordLimbPatterns: stored-limb patterns built from 64-bit words with HALF-WORD structure - a zero / equality test
+// that folds a 64-bit word to 32 bits (truncation, hi+lo, hi^lo, a narrower constant-time primitive) is wrong exactly
+// on words such as 2^32 (low half zero), 0x1_ffffffff (halves add up to 2^32), 0x80000000_80000000 (equal halves:
+// XOR cancels, ADD wraps). One limb carries such a word, or two limbs carry two of them (the limbs are OR-ed
+// before the fold: 2^32 in one limb and 2^32-1 in another make 0x1_ffffffff); the other limbs are zero.
+func HalfWordLimbPatterns(mod *big.Int) [][4]uint64 {
+	hw := []uint64{1 << 32, 1<<32 - 1, 1<<33 - 1, 0xffffffff00000001, 0x8000000080000000, 0x1234567812345678, 0x0000000100000001, 0xfffffffe00000002}
+	var out [][4]uint64
+	seen := map[[4]uint64]bool{}
+	add := func(l [4]uint64) {
+		v := new(big.Int)
+		for i := 3; i >= 0; i-- {
+			v.Lsh(v, 64)
+			v.Or(v, new(big.Int).SetUint64(l[i]))
+		}
+		if v.Cmp(mod) < 0 && !seen[l] {
+			seen[l] = true
+			out = append(out, l)
+		}
+	}
+	for j := 0; j < 4; j++ {
+		for _, w := range hw {
+			var l [4]uint64
+			l[j] = w
+			add(l)
+			for k := j + 1; k < 4; k++ {
+				for _, w2 := range hw {
+					l2 := l
+					l2[k] = w2
+					add(l2)
+				}
+			}
+		}
+	}
+	return out
+}
